@@ -147,3 +147,48 @@ func srvCloseAndDelete() {
 	verifAssert("serve-after-close", e.s.Serve(nil) == ErrServerClosed)
 	verifCover("closed")
 }
+
+// the listener fails: Serve returns the listener error with every peer stopped; Close afterwards returns
+func Verif_C10_listener_error() {
+	verifRaceDetect(true)
+	verifNote("Server with one listener and an Established passive peer; the listener's Accept fails: Serve returns a non-nil error that is not ErrServerClosed, the session was ceased and closed, OnClose delivered, no goroutine left; Close afterwards returns and a later Serve returns ErrServerClosed")
+	e := newSrvEnv()
+	cfg := PeerConfig{RemoteAddress: e.remote, LocalAS: 65000, RemoteAS: 65001}
+	verifAssert("addpeer", e.s.AddPeer(cfg, e.pl, WithPassive()) == nil)
+	fl := &failingListener{symListener: newSymListener(), fail: make(chan struct{})}
+	go func() { e.serveErr <- e.s.Serve([]net.Listener{fl}) }()
+	verifQuiesce()
+	sess := newStagedConn("in")
+	sess.remote = e.remote
+	fl.ch <- sess
+	verifQuiesce()
+	e.establish(sess)
+	verifAssert("established", e.pl.nEstab == 1)
+	verifDelayBound(1)
+	close(fl.fail)
+	err := <-e.serveErr
+	verifAssert("serve-returns-the-listener-error", err != nil && err != ErrServerClosed)
+	verifAssert("session-ceased-and-closed", sess.closed && sess.lastIsCease())
+	verifAssert("onclose-delivered", e.pl.nClose == 1)
+	e.s.Close()
+	verifQuiesce()
+	verifAssert("no-goroutine-left", verifGoroutines() == 0)
+	verifAssert("serve-after-close", e.s.Serve(nil) == ErrServerClosed)
+	verifCover("listener-error")
+}
+
+type failingListener struct {
+	*symListener
+	fail chan struct{}
+}
+
+func (l *failingListener) Accept() (net.Conn, error) {
+	select {
+	case c := <-l.ch:
+		return c, nil
+	case <-l.fail:
+		return nil, errSymReset
+	case <-l.closed:
+		return nil, errSymClosed
+	}
+}
